@@ -504,7 +504,7 @@ impl<Tx> GTFInput<'_, Tx> {
                     .get(b)
                     .filter(|o| o.is_contract())
                     .and_then(Output::input_index)
-                    .ok_or(PanicReason::InputNotFound)? as Word
+                    .ok_or(PanicReason::OutputNotFound)? as Word
             }
             GTFArgs::OutputContractCreatedContractId => ofs.saturating_add(
                 tx.outputs()
